@@ -4,10 +4,11 @@ token boundary, @ vs paragraph sign, for_actor(X) vs for actor X, trailing comma
 decimals, quote style, multi-line spelling of strings). Oracle: recorded results of the real compiler compared."""
 from __future__ import annotations
 
+import json
 import random
 
 from vf import monitors, norm
-from vf.common import exps_workload, std_shards, gsig, try_compile, prog_from_json
+from vf.common import exps_workload, std_shards, shard_seeds, gsig, try_compile, prog_from_json
 from vf.esast import print_program, Style, Printer, render
 
 LEVEL = "exploration"
@@ -20,7 +21,11 @@ ASSUMPTIONS = [
 
 
 def shards(tier, seed):
-    return std_shards("C16", tier, seed, 70, 900)
+    out = std_shards("C16", tier, seed, 70, 900)
+    # re-spellings inside imported files, compiled in this process and in a child whose locale encoding is not UTF-8
+    for s in shard_seeds(seed, 2, "C16i"):
+        out.append({"kind": "imported", "seed": s, "n": 18 if tier == "quick" else 300})
+    return out
 
 
 def result_key(c):
@@ -75,8 +80,94 @@ def check_program(acc, prog, rnd, k, name, sample=False):
             acc.sample({"original": base.text[:500], "respelling": r.text[:700]})
 
 
+def _compile_layout(lay):
+    """result key of the layout's main file, or ('rejected', type)"""
+    from explorerscript.error import ParseError, SsbCompilerError
+    try:
+        return result_key(norm.compile_exps(lay.main_text, lay.main_path, lay.lookup))
+    except (ParseError, SsbCompilerError, ValueError) as e:
+        return ("rejected", type(e).__name__, str(e)[:160])
+
+
+def _strip_root(x, root):
+    return json.loads(json.dumps(x, default=repr).replace(root, "<root>"))
+
+
+def run_imported(shard, acc, only=None):
+    """The imported files of a G-MACRO layout are written in the canonical and in an alternative spelling (both @ and the
+    paragraph sign, other integer bases, comments, ...). Both must compile to the same result, in this process and in a child
+    interpreter that runs with the C locale (default encoding ASCII, UTF-8 mode off)."""
+    import os, subprocess, tempfile, shutil
+    from vf.macrogen import macro_workload
+    from vf.env import PY, REPO, VERIF
+
+    rnd = random.Random(shard["seed"] ^ 0x161)
+    scratch = tempfile.mkdtemp(prefix="verif_c16_")
+    jobs, expect, entered = [], {}, []
+    try:
+        for idx, (name, lay) in enumerate(macro_workload(dict(shard, rich=True))):
+            sseed, lseed = rnd.randrange(1 << 40), rnd.randrange(1 << 40)
+            if only is not None and idx != only:
+                continue
+            inp = {"kind": "imported", "seed": shard["seed"], "n": shard["n"], "index": idx, "layout": lay.describe()}
+            with lay:
+                k0 = _strip_root(_compile_layout(lay), lay.root)
+                inp["canonical"] = lay.texts()
+            if isinstance(k0, list) and k0 and k0[0] == "rejected":
+                acc.count("imported_layouts_rejected")
+                continue
+            acc.count("imported_layouts")
+            lay.spelling = (sseed, lseed if idx % 3 else None)
+            lay.__enter__()
+            entered.append(lay)
+            inp["respelling"] = lay.texts()
+            acc.announce(name, {"text": lay.main_text})
+            k1 = _strip_root(_compile_layout(lay), lay.root)
+            acc.count("respellings_compared")
+            acc.count("imported_respellings_compared")
+            acc.case(json.dumps(inp["respelling"], sort_keys=True), inp["respelling"] != inp["canonical"])
+            if any("\u00a7" in t for k, t in inp["respelling"].items() if k != lay.main_key):
+                acc.count("imported_files_with_paragraph_sign_labels")
+            if k1 != k0:
+                acc.violation(gsig("result-differs", "imported-file-respelled", k1[1] if isinstance(k1, list) and k1 and k1[0] == "rejected" else "ops"),
+                              {"canonical": repr(k0)[:300], "respelled": repr(k1)[:300]}, inp)
+                continue
+            jobs.append({"id": str(idx), "main": lay.main_path, "lookup": lay.lookup})
+            expect[str(idx)] = (k0, inp, lay.root)
+        if not jobs:
+            return
+        jf, of = os.path.join(scratch, "jobs.json"), os.path.join(scratch, "out.json")
+        json.dump(jobs, open(jf, "w"))
+        env = {k: v for k, v in os.environ.items() if not k.startswith("LC_") and k not in ("LANG", "LANGUAGE", "PYTHONIOENCODING")}
+        env.update(LC_ALL="C", PYTHONUTF8="0", PYTHONCOERCECLOCALE="0", PYTHONPATH=REPO + os.pathsep + VERIF, PYTHONHASHSEED="0",
+                   PYTHONDONTWRITEBYTECODE="1", VERIF_REPO=REPO)
+        p = subprocess.run([PY, "-m", "vf.localechild", jf, of], capture_output=True, text=True, env=env, timeout=600)
+        if p.returncode != 0 or not os.path.exists(of):
+            acc.inconc("locale-child-failed", {"stderr": p.stderr[-300:]})
+            return
+        res = json.load(open(of))
+        acc.add_to_set("child_default_encodings", res["encoding"])
+        if res["encoding"].lower().replace("-", "") in ("utf8",):
+            acc.inconc("locale-child-runs-with-utf8", {"encoding": res["encoding"]})
+            return
+        for jid, (k0, inp, root) in expect.items():
+            r = res["results"].get(jid)
+            acc.count("compiled_in_a_child_with_another_default_encoding")
+            got = _strip_root(r.get("key"), root) if r and r.get("ok") else ["rejected", (r or {}).get("exc"), (r or {}).get("msg")]
+            if got != k0:
+                acc.violation(gsig("result-differs", "imported-file-respelled", "in-a-process-with-default-encoding-" + res["encoding"],
+                                   got[1] if got and got[0] == "rejected" else "ops"),
+                              {"expected": repr(k0)[:300], "child": repr(got)[:300], "child_encoding": res["encoding"]}, inp)
+    finally:
+        for lay in entered:
+            lay.__exit__()
+        shutil.rmtree(scratch, ignore_errors=True)
+
+
 def run_shard(shard, acc):
     monitors.install()
+    if shard["kind"] == "imported":
+        return run_imported(shard, acc)
     rnd = random.Random(shard["seed"] ^ 0x16)
     k = 4 if shard.get("n", 0) < 200 else 12
     for i, (name, prog) in enumerate(exps_workload(shard)):
@@ -100,6 +191,8 @@ def summarize(agg, tier):
 
 def replay(inp, acc):
     monitors.install()
+    if inp.get("kind") == "imported":
+        return run_imported({"kind": "imported", "seed": inp["seed"], "n": inp["n"]}, acc, only=inp["index"])
     prog = prog_from_json(inp["prog"])
     base = print_program(prog)
     c0 = try_compile(base.text, acc)
